@@ -140,24 +140,24 @@ Proof.
   destruct o as [[s|b|]|]; cbn [handle].
   - (* Measure *)
     destruct (lookup i (c_map c)) as [e|] eqn:Hl.
-    + rewrite view_update_clock. rewrite !view_of_m. cbn [c_map]. unfold store, view_m.
+    + rewrite view_update_clock. rewrite !view_of_m. cbn [c_map with_map]. unfold store, view_m.
       destruct (Z.eqb_spec i j) as [->|Hne].
       * rewrite lookup_update_same, Hl. reflexivity.
       * rewrite lookup_update_other by exact Hne. reflexivity.
     + cbn [fst]. destruct (Z.eqb_spec i j) as [->|Hne]; [|reflexivity].
       rewrite view_of_m. unfold view_m. rewrite Hl. reflexivity.
   - (* SetUsable *)
-    cbn [fst]. rewrite !view_of_m. cbn [c_map]. unfold view_m.
+    cbn [fst]. rewrite !view_of_m. cbn [c_map with_map]. unfold view_m.
     destruct (Z.eqb_spec i j) as [->|Hne].
     + rewrite lookup_update_same. destruct (lookup j (c_map c)); reflexivity.
     + rewrite lookup_update_other by exact Hne. reflexivity.
   - (* DropSrc *)
-    cbn [fst]. rewrite !view_of_m. cbn [c_map]. unfold view_m.
+    cbn [fst]. rewrite !view_of_m. cbn [c_map with_map]. unfold view_m.
     destruct (Z.eqb_spec i j) as [->|Hne].
     + rewrite lookup_remove_same. reflexivity.
     + rewrite lookup_remove_other by exact Hne. reflexivity.
   - (* add_source *)
-    cbn [fst]. rewrite !view_of_m. cbn [c_map]. unfold view_m, insert. cbn [lookup].
+    cbn [fst]. rewrite !view_of_m. cbn [c_map with_map]. unfold view_m, insert. cbn [lookup].
     destruct (Z.eqb_spec i j) as [->|Hne]; [reflexivity|].
     rewrite lookup_remove_other by exact Hne. reflexivity.
 Qed.
@@ -206,11 +206,11 @@ Lemma nodup_handle W c ev : NoDup (keys (c_map c)) -> NoDup (keys (c_map (fst (h
 Proof.
   intros H. destruct ev as [i [[s|b|]|]]; cbn [handle].
   - destruct (lookup i (c_map c)); [|exact H].
-    destruct (update_clock_map W (mkCtl (store i s (c_map c)) (c_startup c)) (snap_update s)) as [-> | ->];
-      cbn [c_map]; unfold store; rewrite ?keys_progress, keys_update; exact H.
-  - cbn [fst c_map]. rewrite keys_update. exact H.
-  - cbn [fst c_map]. apply nodup_remove. exact H.
-  - cbn [fst c_map]. apply nodup_insert. exact H.
+    destruct (update_clock_map W (with_map (store i s (c_map c)) c) (snap_update s)) as [-> | ->];
+      cbn [c_map with_map]; unfold store; rewrite ?keys_progress, keys_update; exact H.
+  - cbn [fst c_map with_map]. rewrite keys_update. exact H.
+  - cbn [fst c_map with_map]. apply nodup_remove. exact H.
+  - cbn [fst c_map with_map]. apply nodup_insert. exact H.
 Qed.
 
 Lemma nodup_run_from W tr : forall c, NoDup (keys (c_map c)) -> NoDup (keys (c_map (fst (run_from W c tr)))).
@@ -259,7 +259,7 @@ Proof.
   assert (Hmap : L = candidates (c_map (state_after W (pre ++ [ev])))).
   { rewrite state_after_snoc. destruct ev as [i [[s|b|]|]]; cbn [select_input] in Hsi; try discriminate.
     cbn [handle]. destruct (lookup i (c_map (state_after W pre))); [|discriminate].
-    unfold update_clock. cbn [c_map]. destruct (existsb _ _); [discriminate|].
+    unfold update_clock. cbn [c_map with_map]. destruct (existsb _ _); [discriminate|].
     inversion Hsi; subst L. destruct (w_select W _); reflexivity. }
   subst L. rewrite (candidates_view _ (nodup_state_after W (pre ++ [ev]))).
   split; intros [j Hj]; exists j; rewrite <- view_of_m, view_state_after in *; exact Hj.
@@ -275,7 +275,7 @@ Proof.
   intros Hsub Hsi Hh Hu i Hin.
   destruct ev as [j [[s|b|]|]]; cbn [select_input] in Hsi; try discriminate.
   cbn [handle] in Hh. destruct (lookup j (c_map (state_after W pre))); [|discriminate].
-  unfold update_clock in Hh. cbn [c_map c_startup] in Hh. destruct (existsb _ _); [discriminate|].
+  unfold update_clock in Hh. cbn [c_map c_startup c_slew c_nsteer with_map] in Hh. destruct (existsb _ _); [discriminate|].
   inversion Hsi; subst L. clear Hsi.
   destruct (w_select W _) as [|x r] eqn:Hsel; inversion Hh; subst o; cbn [o_used] in Hu; [discriminate|].
   inversion Hu; subst u. change (In i (map snap_id (x :: r))) in Hin.
@@ -292,7 +292,7 @@ Proof.
   intros Hh Hc. destruct ev as [j [[s|b|]|]]; cbn [handle] in Hh;
     try (inversion Hh; subst o; cbn in Hc; contradiction).
   cbn [select_input]. destruct (lookup j (c_map c)); [|inversion Hh; subst o; cbn in Hc; contradiction].
-  unfold update_clock in Hh. cbn [c_map c_startup] in Hh.
+  unfold update_clock in Hh. cbn [c_map c_startup c_slew c_nsteer with_map] in Hh.
   destruct (existsb _ _); [inversion Hh; subst o; cbn in Hc; contradiction|].
   destruct (w_select W _) as [|x r] eqn:Hsel; inversion Hh; subst o; [cbn in Hc; contradiction|].
   eexists. eexists. split; [reflexivity|]. split; [exact Hsel|]. split; [discriminate|reflexivity].
@@ -302,7 +302,7 @@ Qed.
 Lemma handle_unregistered W c i o :
   lookup i (c_map c) = None -> handle W c (i, Some o) = (c, out0).
 Proof.
-  intros Hl. destruct c as [m st]. cbn [c_map] in Hl. destruct o as [s|b|]; cbn [handle c_map c_startup].
+  intros Hl. destruct c as [m st]. cbn [c_map with_map] in Hl. destruct o as [s|b|]; cbn [handle c_map c_startup].
   - rewrite Hl. reflexivity.
   - rewrite update_absent by exact Hl. reflexivity.
   - rewrite remove_absent by exact Hl. reflexivity.
@@ -418,4 +418,188 @@ Lemma per_source_order W scripts tr j sc :
 Proof.
   intros Hint Hs Hok. rewrite stored_log_proj. rewrite (Hint j), Hs.
   unfold task_events. cbn [accepted src_step app]. apply accepted_script. exact Hok.
+Qed.
+
+(* ---------------------------------------------------------------- the timer path *)
+(* only the consensus branch returns next_update = Some: it is the start of a slew, which needs
+   desired_freq == 0 before and leaves it non-zero *)
+Lemma next_update_needs_selection W c ev c' o :
+  handle W c ev = (c', o) -> o_next o = true ->
+  exists L sel, select_input c ev = Some L /\ w_select W L = sel /\ sel <> [] /\
+                o_used o = Some (map snap_id sel) /\ In 5 (o_clock o) /\
+                c_slew c = false /\ c_slew c' = true.
+Proof.
+  intros Hh Hn. destruct ev as [j [[s|b|]|]]; cbn [handle] in Hh;
+    try (inversion Hh; subst o; cbn in Hn; discriminate).
+  cbn [select_input]. destruct (lookup j (c_map c)); [|inversion Hh; subst o; cbn in Hn; discriminate].
+  unfold update_clock in Hh. cbn [c_map c_startup c_slew c_nsteer with_map] in Hh.
+  destruct (existsb _ _); [inversion Hh; subst o; cbn in Hn; discriminate|].
+  destruct (w_select W _) as [|x r] eqn:Hsel; inversion Hh; subst o c'; [cbn in Hn; discriminate|].
+  cbn [o_next o_used o_clock c_slew] in *. clear Hh.
+  eexists. eexists. split; [reflexivity|]. split; [exact Hsel|]. split; [discriminate|]. split; [reflexivity|].
+  unfold steer in *. destruct (c_slew c); cbn [negb andb] in *.
+  - destruct (wi_freq _); cbn in Hn; discriminate.
+  - destruct (wi_offset _); cbn [andb] in *.
+    + destruct (wi_big _); cbn in Hn; [discriminate|]. cbn [fst snd]. split; [|split; reflexivity].
+      apply in_or_app. right. left. reflexivity.
+    + destruct (wi_freq _); cbn in Hn; discriminate.
+Qed.
+
+(* a handled message never ends a slew *)
+Lemma handle_slew_kept W c ev : c_slew c = true -> c_slew (fst (handle W c ev)) = true.
+Proof.
+  intros Hs. destruct ev as [j [[s|b|]|]]; cbn [handle]; try exact Hs.
+  destruct (lookup j (c_map c)); [|exact Hs].
+  unfold update_clock. cbn [c_map c_startup c_slew c_nsteer with_map].
+  destruct (existsb _ _); [exact Hs|].
+  destruct (w_select W _); [exact Hs|]. cbn [fst c_slew]. unfold steer. rewrite Hs. cbn [negb andb].
+  destruct (wi_freq _); reflexivity.
+Qed.
+
+Lemma trun_from_app W tr1 : forall s tr2,
+  fst (trun_from W s (tr1 ++ tr2)) = fst (trun_from W (fst (trun_from W s tr1)) tr2).
+Proof.
+  induction tr1 as [|te r IH]; intros s tr2; [reflexivity|].
+  cbn [app trun_from]. destruct (thandle W s te) as [s1 o] eqn:Hh.
+  specialize (IH s1 tr2).
+  destruct (trun_from W s1 (r ++ tr2)) as [s2 os]. destruct (trun_from W s1 r) as [s3 os3].
+  cbn [fst] in *. exact IH.
+Qed.
+
+Lemma tstate_after_snoc W tr te :
+  tstate_after W (tr ++ [te]) = fst (thandle W (tstate_after W tr) te).
+Proof.
+  unfold tstate_after. rewrite trun_from_app. cbn [trun_from].
+  destruct (thandle W _ te). reflexivity.
+Qed.
+
+(* an enabled sleeper means a slew is in progress *)
+Lemma timer_means_slew W tr :
+  l_timer (tstate_after W tr) = true -> c_slew (l_ctl (tstate_after W tr)) = true.
+Proof.
+  induction tr as [|te tr IH] using rev_ind; [discriminate|].
+  rewrite tstate_after_snoc. destruct te as [ev|]; cbn [thandle].
+  - cbn [fst l_timer l_ctl]. intros Ht. apply orb_true_iff in Ht. destruct Ht as [Ht|Hn].
+    + apply handle_slew_kept. apply IH. exact Ht.
+    + destruct (handle W (l_ctl (tstate_after W tr)) ev) as [c' o] eqn:Hh. cbn [fst snd] in *.
+      destruct (next_update_needs_selection W _ _ _ _ Hh Hn) as (L & sel & _ & _ & _ & _ & _ & _ & Hs).
+      exact Hs.
+  - destruct (l_timer (tstate_after W tr)) eqn:Ht; cbn [fst l_timer]; [discriminate|].
+    intros H. rewrite Ht in H. discriminate.
+Qed.
+
+(* an enabled sleeper was armed by a message of the schedule, and has not fired since *)
+Lemma timer_armed_by W tr :
+  l_timer (tstate_after W tr) = true ->
+  exists pre ev post, tr = pre ++ Msg ev :: post /\ (forall x, In x post -> x <> TimeUpdate) /\
+                      o_next (snd (handle W (l_ctl (tstate_after W pre)) ev)) = true.
+Proof.
+  induction tr as [|te tr IH] using rev_ind; [discriminate|].
+  rewrite tstate_after_snoc. destruct te as [ev|]; cbn [thandle].
+  - cbn [fst l_timer]. intros Ht. destruct (o_next (snd (handle W (l_ctl (tstate_after W tr)) ev))) eqn:Hn.
+    + exists tr, ev, []. split; [reflexivity|]. split; [intros x []|exact Hn].
+    + rewrite orb_false_r in Ht. destruct (IH Ht) as (pre & ev0 & post & -> & Hno & Harm).
+      exists pre, ev0, (post ++ [Msg ev]). split; [rewrite <- app_assoc; reflexivity|]. split; [|exact Harm].
+      intros x Hx. apply in_app_or in Hx. destruct Hx as [Hx|[<-|[]]]; [apply Hno; exact Hx|discriminate].
+  - destruct (l_timer (tstate_after W tr)) eqn:Ht; cbn [fst l_timer]; [discriminate|].
+    intros H. rewrite Ht in H. discriminate.
+Qed.
+
+(* every clock call of the loop: a message handled on a non-empty selection, or the timer expiry
+   that ends the slew started by such a message *)
+Theorem clock_calls_consensus_or_slew_end W pre te s' o :
+  thandle W (tstate_after W pre) te = (s', o) -> o_clock o <> [] ->
+  (exists ev L sel, te = Msg ev /\ select_input (l_ctl (tstate_after W pre)) ev = Some L /\
+                    w_select W L = sel /\ sel <> [] /\ o_used o = Some (map snap_id sel))
+  \/
+  (te = TimeUpdate /\ o_clock o = [5] /\ o_used o = None /\ o_next o = false /\
+   c_slew (l_ctl (tstate_after W pre)) = true /\ c_slew (l_ctl s') = false /\ l_timer s' = false /\
+   exists pre1 ev post L sel c1 o1,
+     pre = pre1 ++ Msg ev :: post /\ (forall x, In x post -> x <> TimeUpdate) /\
+     select_input (l_ctl (tstate_after W pre1)) ev = Some L /\ w_select W L = sel /\ sel <> [] /\
+     handle W (l_ctl (tstate_after W pre1)) ev = (c1, o1) /\
+     o_used o1 = Some (map snap_id sel) /\ o_next o1 = true /\ In 5 (o_clock o1) /\
+     c_slew (l_ctl (tstate_after W pre1)) = false /\ c_slew c1 = true).
+Proof.
+  intros Hh Hc. destruct te as [ev|]; cbn [thandle] in Hh.
+  - left. destruct (handle W (l_ctl (tstate_after W pre)) ev) as [c' o'] eqn:Hhe. cbn [fst snd] in Hh.
+    inversion Hh; subst o' s'. clear Hh.
+    destruct (clock_calls_need_selection W _ _ _ _ Hhe Hc) as (L & sel & H1 & H2 & H3 & H4).
+    exists ev, L, sel. auto.
+  - right. destruct (l_timer (tstate_after W pre)) eqn:Ht; [|inversion Hh; subst o; cbn in Hc; contradiction].
+    cbn [time_update fst snd o_next] in Hh. inversion Hh; subst o s'. clear Hh.
+    split; [reflexivity|]. split; [reflexivity|]. split; [reflexivity|]. split; [reflexivity|].
+    split; [apply timer_means_slew; exact Ht|]. split; [reflexivity|]. split; [reflexivity|].
+    destruct (timer_armed_by W pre Ht) as (pre1 & ev & post & Hpre & Hno & Harm).
+    destruct (handle W (l_ctl (tstate_after W pre1)) ev) as [c1 o1] eqn:Hhe. cbn [snd] in Harm.
+    destruct (next_update_needs_selection W _ _ _ _ Hhe Harm) as (L & sel & H1 & H2 & H3 & H4 & H5 & H6 & H7).
+    exists pre1, ev, post, L, sel, c1, o1. repeat (split; [assumption|]). assumption.
+Qed.
+
+(* the local form: what one step of the loop can do to the clock *)
+Lemma thandle_calls W s te s' o :
+  thandle W s te = (s', o) -> o_clock o <> [] ->
+  (exists ev L sel, te = Msg ev /\ select_input (l_ctl s) ev = Some L /\ w_select W L = sel /\ sel <> [] /\
+                    o_used o = Some (map snap_id sel))
+  \/ (te = TimeUpdate /\ l_timer s = true /\ o_clock o = [5] /\ o_used o = None /\ l_timer s' = false).
+Proof.
+  intros Hh Hc. destruct te as [ev|]; cbn [thandle] in Hh.
+  - left. destruct (handle W (l_ctl s) ev) as [c' o'] eqn:Hhe. cbn [fst snd] in Hh.
+    inversion Hh; subst o' s'. clear Hh.
+    destruct (clock_calls_need_selection W _ _ _ _ Hhe Hc) as (L & sel & H1 & H2 & H3 & H4).
+    exists ev, L, sel. auto.
+  - right. destruct (l_timer s) eqn:Ht; [|inversion Hh; subst o; cbn in Hc; contradiction].
+    cbn [time_update fst snd o_next] in Hh. inversion Hh; subst o s'. auto.
+Qed.
+
+(* ---------------------------------------------------------------- timer expiries and the source map *)
+(* the map after handling a message depends on the map only *)
+Lemma handle_map_only W c1 c2 ev :
+  c_map c1 = c_map c2 -> c_map (fst (handle W c1 ev)) = c_map (fst (handle W c2 ev)).
+Proof.
+  intros H. destruct ev as [j [[s|b|]|]]; cbn [handle fst c_map with_map]; rewrite ?H; try reflexivity.
+  destruct (lookup j (c_map c2)); [|exact H].
+  unfold update_clock. cbn [c_map c_startup c_slew c_nsteer with_map]. rewrite ?H.
+  destruct (existsb _ _); [cbn [fst c_map with_map]; rewrite ?H; reflexivity|].
+  destruct (w_select W _); reflexivity.
+Qed.
+
+Lemma trun_map W tr : forall s c,
+  c_map (l_ctl s) = c_map c ->
+  c_map (l_ctl (fst (trun_from W s tr))) = c_map (fst (run_from W c (msgs tr))).
+Proof.
+  induction tr as [|te r IH]; intros s c H; [exact H|].
+  cbn [trun_from]. destruct (thandle W s te) as [s1 o] eqn:Hh.
+  destruct te as [ev|]; cbn [thandle] in Hh.
+  - change (msgs (Msg ev :: r)) with (ev :: msgs r). cbn [run_from].
+    destruct (handle W c ev) as [c1 o1] eqn:Hc.
+    pose proof (handle_map_only W (l_ctl s) c ev H) as Hm. rewrite Hc in Hm. cbn [fst] in Hm.
+    inversion Hh; subst s1 o. clear Hh.
+    specialize (IH (mkL (fst (handle W (l_ctl s) ev)) (l_timer s || o_next (snd (handle W (l_ctl s) ev)))) c1 Hm).
+    destruct (trun_from W _ r) as [s2 os]. destruct (run_from W c1 (msgs r)) as [c2 os2]. exact IH.
+  - change (msgs (TimeUpdate :: r)) with (msgs r).
+    assert (Hm : c_map (l_ctl s1) = c_map c).
+    { destruct (l_timer s); inversion Hh; subst; cbn; exact H. }
+    specialize (IH s1 c Hm). destruct (trun_from W s1 r) as [s2 os]. exact IH.
+Qed.
+
+(* timer expiries are invisible to the source map: it is the map of the schedule's messages *)
+Lemma tstate_map W tr : c_map (l_ctl (tstate_after W tr)) = c_map (state_after W (msgs tr)).
+Proof. unfold tstate_after, state_after. apply trun_map. reflexivity. Qed.
+
+Lemma select_input_map_only c1 c2 ev : c_map c1 = c_map c2 -> select_input c1 ev = select_input c2 ev.
+Proof. intros H. destruct ev as [j [[s|b|]|]]; cbn [select_input]; rewrite ?H; reflexivity. Qed.
+
+Lemma view_tstate_after W j tr : view_of j (l_ctl (tstate_after W tr)) = src_view (ops_of j (msgs tr)).
+Proof. rewrite view_of_m, tstate_map, <- view_of_m. apply view_state_after. Qed.
+
+Lemma msgs_app a b : msgs (a ++ b) = msgs a ++ msgs b.
+Proof. unfold msgs. apply flat_map_app. Qed.
+
+Lemma select_input_spec_timed W pre ev L :
+  select_input (l_ctl (tstate_after W pre)) ev = Some L ->
+  forall k, In k (map snap_core L) <-> exists j, src_view (ops_of j (msgs (pre ++ [Msg ev]))) = Some (Some k, true).
+Proof.
+  intros Hsi. rewrite (select_input_map_only _ (state_after W (msgs pre)) ev (tstate_map W pre)) in Hsi.
+  rewrite msgs_app. change (msgs [Msg ev]) with [ev]. apply (select_input_spec W (msgs pre) ev L Hsi).
 Qed.
